@@ -995,6 +995,10 @@ impl FlexScen {
                 remove.push(mk(rng.pick(&cand).to_string()));
             }
         }
+        // the same address named twice in one remove list
+        if remove.len() == 2 && rng.chance(1, 3) {
+            remove[1] = remove[0].clone();
+        }
         (add, remove)
     }
 
